@@ -1317,6 +1317,8 @@ def run(ctx):
                     sent = sent_host(cap)
                     if sent != peer and sent in rec["peers"][:-1]:
                         why = "stale-host"
+                    elif ":" in peer and dict(cap.info["headers"]).get(b"host", b"").strip() == peer.encode():
+                        why = "host-ipv6-unbracketed"      # the literal of the connected peer, without [ ]
                 rec.setdefault("oracle", []).append(why)
                 if why == "stale-host":
                     add(f"host-header:stale-after-reconnect:{rec['via']}",
